@@ -362,6 +362,10 @@ def launch(reactor,
         # note that attach_protocol waits for the protocol to be
         # boostrapped if necessary
 
+    # the process may have ended while we were still setting up
+    if process_protocol._ended is not None:
+        process_protocol._ended.raiseException()
+
     return Tor(
         reactor,
         config.protocol,
@@ -1189,6 +1193,7 @@ class TorProcessProtocol(protocol.ProcessProtocol):
         # use SingleObserver
         self._connected_listeners = []  # list of Deferred (None when we're connected)
         self._connected_result = None  # what we told the listeners (self, or a Failure)
+        self._ended = None  # a Failure, once processEnded was called
 
         self.attempted_connect = False
         self.to_delete = []
@@ -1349,7 +1354,8 @@ class TorProcessProtocol(protocol.ProcessProtocol):
         # hmmm, this log() should probably go away...not always an
         # error (e.g. .quit()
         log.err(err)
-        self._maybe_notify_connected(Failure(err))
+        self._ended = Failure(err)
+        self._maybe_notify_connected(self._ended)
 
     def progress(self, percent, tag, summary):
         """
